@@ -124,7 +124,9 @@ func c04Specs(tier string) []*seq.Spec {
 		cfg = &msCfg{nStores: 2, keys: msKeys3, vals: [][]byte{[]byte("a"), []byte("b")}, bounds: msBounds3, maxCommits: 4, final: c04FinalCommitted}
 		depth = 8
 	}
-	return []*seq.Spec{msSpec("multistore-reload", cfg, depth)}
+	d := *cfg
+	d.direct = true // block writes straight into the live stores, as the application's deliver state does
+	return []*seq.Spec{msSpec("multistore-reload", cfg, depth), msSpec("multistore-reload-direct-writes", &d, depth-2)}
 }
 
 // only states right after a commit are observed by reopening (uncommitted writes are not on disk by design)
